@@ -50,7 +50,7 @@ func init() {
 	register(PropCfg{
 		ID:    "C11",
 		Level: "exploration",
-		Rule: "one evaluation = one operation of a generated history (update a source, re-wire a scalar input, append to / remove from an array input, read a node, look at State/Version) over a generated DAG of real nodes.Struct nodes (<=8) on <=5 sources (parameter.Value and nodes.ValueNode); " +
+		Rule: "one evaluation = one operation of a generated history (update a source, re-wire a scalar input, append to / remove from an array input, read a node, look at State/Version) over a generated DAG of real nodes.Struct nodes (<=8) on <=5 sources (parameter.Value, nodes.ValueNode, function-initialised and slice-valued value nodes; one source in four has a subscriber that reads a node from inside the alert of an update); " +
 			"after every operation the real graph is compared with a from-scratch evaluator and an execution/version model; the order in which a node enumerates its dependencies (Go map order in the real program) is a seeded choice. " +
 			"distinct_nontrivial = distinct histories (hash of the operation sequence with results) that contain an update or re-wiring followed by a read of a node at distance >= 2 from its sources",
 		Scenarios: []ScenCfg{{Name: "node-histories", Chunk: 5000, QuickRuns: 600000, QuickS: 60, ThoroughRuns: 20000000, ThoroughS: 900, Procs: 2, DetQuick: 200, DetThorough: 2000}},
@@ -111,7 +111,7 @@ func init() {
 			"an editing call that panics on unmet preconditions is recorded and tolerated; the state it leaves behind must still round-trip",
 		},
 		RealVsStub: map[string]string{
-			"real": "generator.App (Schema, ApplySchema), graph.Instance editing API, all 76 registered node types plus two harness types, parameter (de)serialisation, jbtf encoder, sync.NestedSyncMap",
+			"real": "generator.App (Schema, ApplySchema), graph.Instance editing API, all 76 registered node types plus four harness types (one hand-written with two output ports), parameter (de)serialisation, jbtf encoder, sync.NestedSyncMap",
 			"stub": "restart = drop the App and keep only the saved bytes (no file system; GraphSaver's os.WriteFile is outside the property); HTTP front end not simulated",
 		},
 		RequiredProbes: []string{"fault:restart", "probe:array-input-with-10+-connections", "probe:shipped-graph-start", "artifact:compared-equal", "op:array-remove"},
